@@ -1,8 +1,8 @@
 package rules
 
 import (
-	"go/types"
 	"go/token"
+	"go/types"
 	"strings"
 
 	"golang.org/x/tools/go/ssa"
@@ -26,7 +26,7 @@ func C05(r *core.Run) {
 		"(R05.2) with versioning enabled, the current version is archived under its own id before it is replaced; (R05.3/R09.1n) bucketObject.data is never nil while the key is in the bucket, nilable iterator fields are guarded; " +
 		"(R05.4) archived versions are discarded only by rmVersion/promote with the addressed id, the current version only when its id was addressed, the key only when nothing remains, setVersioning touches nothing but the status; " +
 		"(R05.5) every put draws a fresh id from the generator, whose counter is incremented under its mutex and is part of the id; " +
-		"(R05.6) a current version is overwritten without archiving only when the bucket was never versioned; (R01.6) bytes and metadata maps of stored versions are never modified (an archived version keeps exactly its own metadata). (R05.7) a freshly built version that becomes current outside put carries an id from the generator. (R05.8) whether a handler uses the version-aware backend call depends on the backend being versioned and on the request, never on the bucket's current versioning status: version ids stay addressable while versioning is suspended. (R05.9) promote stores the newest archived entry as current and removes it from the archive before reporting success; a key is dropped only when nothing was left to promote."
+		"(R05.6) a current version is overwritten without archiving only when the bucket was never versioned; (R01.6) bytes and metadata maps of stored versions are never modified (an archived version keeps exactly its own metadata). (R05.7) a freshly built version that becomes current outside put carries an id from the generator. (R05.8) whether a handler uses the version-aware backend call depends on the backend being versioned and on the request, never on the bucket's current versioning status: version ids stay addressable while versioning is suspended. (R05.9) promote stores the newest archived entry as current and removes it from the archive before reporting success; a key is dropped only when nothing was left to promote. (R05.10) version-addressed delete and lookup in the memory backend are not gated by the versioning status."
 	r.NotDecided = "that old versions keep their bytes (follows from R01.6 + immutability of bucketData, checked under C07), 'most recently created' order of remaining versions, multi-delete semantics, value-level uniqueness of ids beyond the counter"
 	ctx := oblig.NewCtx(r.P)
 	installNonNilHook(r, ctx)
@@ -43,6 +43,7 @@ func C05(r *core.Run) {
 	rule057(r)
 	rule058(r)
 	rule059(r)
+	rule0510(r)
 	rule016(r, "C05")
 }
 
@@ -807,5 +808,38 @@ func rule059(r *core.Run) {
 	})
 	if n == 0 {
 		r.Unresolved("R05.9: rmVersion no longer removes emptied keys from bucket.objects")
+	}
+}
+
+// rule0510 — in the memory backend, addressing a version by id does not depend
+// on the bucket's versioning status.
+func rule0510(r *core.Run) {
+	r.Rule("R05.10", "in the memory backend no call of bucket.rmVersion or bucket.objectVersion (the version-addressed delete and lookup) is guarded by a test of bucket.versioning: version ids stay addressable while versioning is suspended (what the status changes is how NEW writes are recorded, R05.2/R05.6)")
+	n := 0
+	for _, fn := range r.P.FuncsOfPkg("s3mem") {
+		f := fn
+		core.Instrs(f, func(in ssa.Instruction) {
+			c, ok := in.(*ssa.Call)
+			if !ok {
+				return
+			}
+			cn := r.P.CalleeName(c)
+			if cn != "s3mem.(*bucket).rmVersion" && cn != "s3mem.(*bucket).objectVersion" {
+				return
+			}
+			n++
+			bad := ""
+			for _, g := range core.GuardsOf(c) {
+				gs := r.P.SliceOf(g.If.Cond, core.SliceOpts{Depth: -1, Control: true})
+				if gs.Has("field:s3mem.bucket.versioning") {
+					bad = pos(r, g.If)
+				}
+			}
+			r.Check(bad == "", "R05.10", key(fname(r, f), "version addressed regardless of the versioning status", strings.TrimPrefix(cn, "s3mem.(*bucket)."), sprintf("#%d", n)), pos(r, c), "not guarded by bucket.versioning",
+				"the version-addressed call is made only for some versioning states (test at "+bad+"): on a suspended bucket a request naming a version id takes the plain path — the named version survives and the current one is replaced or lost")
+		})
+	}
+	if n < 4 {
+		r.Unresolved("R05.10: %d version-addressed calls found in s3mem (expected at least 4)", n)
 	}
 }
